@@ -409,18 +409,23 @@ func UtxoValidateInsufficientCollateral(
 			totalCollateral.Add(totalCollateral, amount)
 		}
 	}
-	// minCollateral = fee * collateralPercentage / 100
+	// The collateral must cover the fee share exactly, with no rounding in
+	// the transaction's favour:
+	// totalCollateral * 100 >= fee * collateralPercentage
 	fee := tmpTx.Fee()
 	if fee == nil {
 		fee = new(big.Int)
 	}
-	minCollateral := new(
+	feeShare := new(
 		big.Int,
 	).Mul(fee, new(big.Int).SetUint64(uint64(tmpPparams.CollateralPercentage)))
-	minCollateral.Div(minCollateral, big.NewInt(100))
-	if totalCollateral.Cmp(minCollateral) >= 0 {
+	scaledCollateral := new(big.Int).Mul(totalCollateral, big.NewInt(100))
+	if scaledCollateral.Cmp(feeShare) >= 0 {
 		return nil
 	}
+	// minCollateral = ceil(fee * collateralPercentage / 100)
+	minCollateral := feeShare.Add(feeShare, big.NewInt(99))
+	minCollateral.Div(minCollateral, big.NewInt(100))
 	// Convert to uint64 for error struct (best effort)
 	var providedU, requiredU uint64
 	if totalCollateral.IsUint64() {
